@@ -86,7 +86,9 @@ def gen_image(ch, galactic=False, small=False):
     spec["rows"], spec["cols"] = n, n + 8 * ch.draw("aspect", 3)
     spec["pix_arcsec"] = (20.0, 10.0, 30.0)[ch.draw("pixscale", 3)]
     spec["beam_pix"] = (3.0, 4.0, 3.5)[ch.draw("beam_pix", 3)]
-    spec["crval"] = ((30.0, -20.0), (359.95, 10.0), (120.0, -75.0), (0.02, 45.0))[ch.draw("crval", 4)]
+    # reference positions: ordinary, straddling RA = 0, high |dec|, and a header that gives the reference longitude as
+    # a negative angle (CRVAL1 = -10 instead of 350: valid FITS; the WCS library then returns negative longitudes)
+    spec["crval"] = ((30.0, -20.0), (359.95, 10.0), (120.0, -75.0), (0.02, 45.0), (-10.0, 5.0))[ch.draw("crval", 5)]
     spec["proj"] = ("SIN", "SIN", "TAN", "ZEA", "ARC", "STG")[ch.draw("projection", 6)]
     spec["noise_seed"] = ch.draw("noise_seed", 1 << 20)
     spec["noise"] = 1.0 if not ch.chance("noiseless", 1, 8) else 0.02
